@@ -15,7 +15,7 @@ mod c19;
 mod c16;
 
 fn main() {
-    std::panic::set_hook(Box::new(|_| {}));
+    if std::env::var("VP_SHOW_PANIC").is_err() { std::panic::set_hook(Box::new(|_| {})); }
     let args: Vec<String> = env::args().collect();
     if args.len() < 3 {
         eprintln!("usage: vp-replay <unit> search|replay [json-input]");
